@@ -6,6 +6,6 @@ def run(tier, seed, update_ledger=False, only=None, jobs=None):
     hs = [h for h in statedict_harnesses(tier) if not only or only in h.hid]
     return run_check("C15", hs, tier=tier, seed=seed, update_ledger=update_ledger, jobs=jobs,
                      unbounded_in=["all constructor-time random draws (each is a distinct fresh symbol in the two instances)", "all parameter values after training", "all inputs"],
-                     bounded_in={"configurations": "18 class configurations with constructor randomness / mutable state; histories: fresh, after a training step, after data-dependent initialisation"},
+                     bounded_in={"configurations": "21 class configurations with constructor randomness / mutable state; histories: fresh, after a training step, after data-dependent initialisation, saved BEFORE data-dependent initialisation"},
                      assumptions=["nn.Module.state_dict / load_state_dict copy exactly the registered parameters and persistent buffers (executed for real on symbolic tensors)",
                                   "identical result terms imply bit-identical results (the same deterministic op sequence on the same values)"])
